@@ -13,6 +13,8 @@ import Pyiga.Proofs.VFormKey
 import Pyiga.Proofs.SLP
 import Pyiga.Proofs.VFormPhys
 import Pyiga.Proofs.VFormPhys2
+import Pyiga.Proofs.VFormPhys3
+import Mathlib.Tactic.NormNum
 import Mathlib.Data.Matrix.Mul
 import Mathlib.Data.Matrix.Diagonal
 
@@ -373,13 +375,64 @@ example : (∑ r ∈ Finset.range 1, (2 : ℚ) * (1 / 2) = if (0 : ℕ) = 0 then
     ∧ ((20 : ℚ) = ∑ n ∈ Finset.range 1, (∑ m ∈ Finset.range 1, 2 * 5) * 2 + ∑ m ∈ Finset.range 1, 3 * 0) := by
   norm_num
 
+/-- **phys_to_para_sound** — closes the physical-derivative pass.  `replacePhysAll dim physIn` is the transliteration of
+`vf.transform(replace_physical_derivs, type=PartialDerivExpr); vf.transform(replace_physical_derivs, type=VarRefExpr)` (tied to
+the real pass by exact structural diff on every corpus tree, stream `rphys`).  `ChainRuleEnv`: the environment's physical jets
+satisfy the chain-rule *defining equations* (first order, and second order with the geometry-Hessian term) w.r.t. a Jacobian
+`J` for every basis function and every entry of every parametric input field, `JacInv` holds a right inverse of `J`, the
+`_geo_hess_trf` variables hold their definitions.  Then for EVERY expression tree whose multi-indices have `dim` entries, in
+EVERY dimension, every entry of the rewritten expression equals the entry of the original one. -/
+theorem phys_to_para_sound {α : Type} [Field α] [CharZero α] (fn : String → α → α) (ρ : Env α) (dim : Nat)
+    (physIn : List String) (J : Nat → Nat → α) (hE : ChainRuleEnv fn ρ dim physIn J) (e : Expr)
+    (hwf : allLeaves (idxLenOK dim) e = true) (i j : Nat) :
+    ev (fieldOps fn) ρ (replacePhysAll dim physIn e) i j = ev (fieldOps fn) ρ e i j :=
+  replacePhysAll_sound' fn ρ dim physIn J hE e hwf i j
+
+/-! non-vacuity of `ChainRuleEnv`: a concrete environment (dim 1, `J = 2`, `JacInv = 1/2`, flat geometry,
+`∂_ξ φ = 2`, `∂_x φ = 1`, `∂_ξξ φ = 4`, `∂_xx φ = 1`) satisfying all of its clauses -/
+namespace NonVacuity
+open Pyiga.VForm Finset
+/-- a concrete environment: dim 1, `J = 2`, `JacInv = 1/2`, flat geometry, `∂_x φ = 1`, `∂_xx φ = 1` -/
+def chainRuleExampleEnv : Env ℚ :=
+  { var := fun _ I D _ => if I = [0, 0] ∧ D = [0] then 1 / 2 else 0
+    bf := fun _ D ph => match D, ph with
+      | [1], true => 1 | [1], false => 2 | [2], true => 1 | [2], false => 4 | _, _ => 7
+    gw := fun _ => 1, dx := 1, ds := 1 }
+
+example : ChainRuleEnv (fun _ x => x) chainRuleExampleEnv 1 [] (fun _ _ => 2) where
+  hinv := by intro m k hm hk; have : m = 0 := by omega
+             have : k = 0 := by omega
+             subst_vars; simp [chainRuleExampleEnv, zerosD]
+  flag_bf := by
+    intro b D ph h
+    simp only [chainRuleExampleEnv]
+    split <;> simp_all [dsum]
+  flag_var := by intro v I D p _; simp [chainRuleExampleEnv]
+  bf1 := by intro b r hr; have : r = 0 := by omega
+            subst this; simp [chainRuleExampleEnv, unitD, zerosD, bump]
+  bf2 := by intro b r c hr hc; have : r = 0 := by omega
+            have : c = 0 := by omega
+            subst_vars; simp [chainRuleExampleEnv, unit2D, unitD, zerosD, bump]; norm_num
+  var1 := by intro v I r _ hr; have : r = 0 := by omega
+             subst this; simp only [Finset.sum_range_one]; simp [chainRuleExampleEnv, unitD, zerosD, bump]
+  var2 := by intro v I r c _ hr hc; have : r = 0 := by omega
+             have : c = 0 := by omega
+             subst_vars; simp only [Finset.sum_range_one]; simp [chainRuleExampleEnv, unit2D, unitD, zerosD, bump]
+  ght := by
+    intro k i j; rw [ev_geoHessTrfDef]
+    simp only [Finset.sum_range_one]
+    simp [chainRuleExampleEnv, unit2D, zerosD, bump]
+
+end NonVacuity
+
 /-- Full statement for the physical-derivative pass (kept as the one-line
 statement over *all* trees and the pass as a black box; every branch of the pass is now transliterated in
 `Model/VFormPhys.lean`, tied by exact structural diff, and proved above: `phys_to_para_first_order`,
 `phys_to_para_second_order` + `geo_hess_trf_value`, `phys_to_para_spacetime` + `spacetime_time_derivs`, `input_derivs_sound`,
-`measures_sound`, `jacinv_right_inverse`, `dx_expansion_sound`; what is not a single Lean theorem is the composition over the
-whole `VForm` state — the traversal `vf.transform` that creates the `let` variables — which `schedule_sound` and the before/after
-oracle cover): for every
+`measures_sound`, `jacinv_right_inverse`, `dx_expansion_sound`; and composed over all expression trees in `phys_to_para_sound`, which instantiates this statement with
+`replacePhys := replacePhysAll dim physIn` and `ChainRuleEnv ρ := ChainRuleEnv fn ρ dim physIn J`; outside that theorem remain the
+space-time pass at tree level (its node-level branch is `phys_to_para_spacetime`) and the creation of the `let` variables by the
+traversal, covered by `schedule_sound` and the before/after oracle): for every
 expression `e`, `⟦replace_physical_derivs e⟧ = ⟦e⟧` in every environment whose physical jets satisfy
 the chain-rule defining equations w.r.t. its parametric jets and the geometry jets. -/
 def phys_to_para_full : Prop :=
